@@ -107,86 +107,6 @@ def lastSnap (cfg : Cfg) : Tracker → List Obs → Snap
   | t, [] => t.snap
   | t, o :: os => lastSnap cfg (t.next cfg o) os
 
-/-! ### Classes of known defects (decidable on configuration + observations) -/
-
-inductive FindingId | F02a | F02b | F02c
-deriving DecidableEq, Repr
-
-def FindingId.name : FindingId → String
-  | .F02a => "F02a" | .F02b => "F02b" | .F02c => "F02c"
-
-/-- A `Dec` that starts at `q` walks up the ancestors only while it finds the request at each level. -/
-def decReach (cfg : Cfg) (snap : Snap) (r : Nat) (q : Nat) : List Nat :=
-  if cfg.isConc q then (cfg.chainOf q).takeWhile (fun q' => holdsSlot r (snap q')) else []
-
-/-- Quotas a proxy error releases: `OnRequestDrop` decrements only the first quota the request touched. -/
-def dropReach (cfg : Cfg) (snap : Snap) (r : Nat) : List Nat :=
-  match cfg.firstTouched with
-  | none => []
-  | some q => decReach cfg snap r q
-
-/-- Quotas a response releases: only the last `QuotaProcessorDec` of the filter's system flow is wired. -/
-def respReach (cfg : Cfg) (snap : Snap) (r : Nat) : List Nat :=
-  match cfg.wiredDec with
-  | none => []
-  | some q => decReach cfg snap r q
-
-def leaky (cfg : Cfg) (snap : Snap) (r : Nat) (reach : List Nat) : Bool :=
-  (List.range cfg.quotas.length).any (fun q => cfg.isConc q && holdsSlot r (snap q) && !reach.contains q)
-
-/-- F02a: a proxy error for a transaction that holds a slot in a concurrent quota outside `dropReach`. -/
-def errLeaky (cfg : Cfg) (snap : Snap) (r : Nat) : Bool := leaky cfg snap r (dropReach cfg snap r)
-
-/-- F02c: a response for a transaction that holds a slot in a concurrent quota outside `respReach`. -/
-def respLeaky (cfg : Cfg) (snap : Snap) (r : Nat) : Bool := leaky cfg snap r (respReach cfg snap r)
-
-/-- Set-ups in which a refused / early-answered request is sure to give everything back: the flow has exactly
-    one limiter on a concurrent quota `c`, every concurrent quota is `c` or an ancestor of `c`, `c`'s is the
-    wired `QuotaProcessorDec`, and no concurrent quota is incremented by a live system flow. -/
-def Cfg.simple (cfg : Cfg) : Bool :=
-  cfg.sysStart.all (fun q => !cfg.isConc q) &&
-  match cfg.order.filter cfg.isConc with
-  | [c] => (List.range cfg.quotas.length).all (fun q => !cfg.isConc q || (cfg.chainOf c).contains q) &&
-           cfg.wiredDec == some c
-  | _ => false
-
-/-- `r`'s slots along `c`'s ancestor chain form a prefix of it (no level without a slot below one with). -/
-def prefixClosed (cfg : Cfg) (snap : Snap) (r : Nat) : Bool :=
-  match cfg.order.filter cfg.isConc with
-  | [c] => (cfg.chainOf c).filter (fun q => holdsSlot r (snap q)) ==
-           (cfg.chainOf c).takeWhile (fun q => holdsSlot r (snap q))
-  | _ => true
-
-/-- F02c for a request the gateway answers itself: outside the simple set-ups the release may be partial. -/
-def reqRisk (cfg : Cfg) (snap : Snap) (r : Nat) : Bool := !cfg.simple || !prefixClosed cfg snap r
-
-/-- F02b: the GC runs while a set holds three or more members (its loop reads the array `SRem` is shifting). -/
-def gcCrowded (cfg : Cfg) (snap : Snap) : Bool :=
-  (List.range cfg.quotas.length).any (fun q => cfg.isConc q && decide (3 ≤ (snap q).length))
-
-def finding (cfg : Cfg) (t : Tracker) (o : Obs) : Option FindingId :=
-  match o.ev with
-  | .err r => if errLeaky cfg t.snap r then some .F02a else none
-  | .resp r => if respLeaky cfg t.snap r then some .F02c else none
-  | .req r _ =>
-    if (o.verdict == .refused || o.verdict == .early) && reqRisk cfg t.snap r then some .F02c else none
-  | .adv d => if (t.lastTick cfg d).isSome && gcCrowded cfg t.snap then some .F02b else none
-
-/-- No event of the history falls in a known-defect class. -/
-def cleanFrom (cfg : Cfg) : Tracker → List Obs → Bool
-  | _, [] => true
-  | t, o :: os => (finding cfg t o).isNone && cleanFrom cfg (t.next cfg o) os
-
-def clean (cfg : Cfg) (obs : List Obs) : Bool := cleanFrom cfg (Tracker.init cfg) obs
-
-/-- The judge: `none` = every event satisfied its conditions; `some c` = the FIRST event that does not, with
-    its known-defect class (`c = none`: not in any class). -/
-def judgeFrom (cfg : Cfg) : Tracker → List Obs → Option (Option FindingId)
-  | _, [] => none
-  | t, o :: os => if stepOk cfg t o then judgeFrom cfg (t.next cfg o) os else some (finding cfg t o)
-
-def judge (cfg : Cfg) (obs : List Obs) : Option (Option FindingId) := judgeFrom cfg (Tracker.init cfg) obs
-
 /-- Which condition failed (for the judge's message). -/
 def stepWhy (cfg : Cfg) (t : Tracker) (o : Obs) : String :=
   if !refusalOk cfg t o then "refused-although-no-consulted-quota-was-full"
